@@ -4,6 +4,7 @@ CONSTANTS
   MaxModel = 1
   FileMode = TRUE
   MaxOps = 0
+  Layered = FALSE
   NObj = 1
   Deviations = {}
 CHECK_DEADLOCK FALSE
